@@ -1,5 +1,6 @@
 """C05 — pause, resume and accept-error back-off never strand a listener."""
 import itertools
+import re
 
 from common import Stream
 from props.srvlib import (COMMON_META, compare, env_ops_of, first_fault_index, gen_scripts, in_progress, parse_case,
@@ -43,19 +44,55 @@ def cmds_in(op):
     return [e for e in env_ops_of(op) if e in ("P", "R", "S")]
 
 
+TRE = re.compile(r" t(\d+|-)\s*$")
+
+
+def poll_timeout(sn):
+    """the loop's poll timeout (ms) printed in the diagnostics field: None = not armed"""
+    m = TRE.search(sn.raw.rstrip())
+    if not m or m.group(1) == "-":
+        return None
+    return int(m.group(1))
+
+
+def c05_compare(impl, model):
+    """srvlib.compare plus the poll timeout: for this property `Accept.timeout` is not an internal detail, it decides when
+    the blocking poll returns and the back-off ends"""
+    if not compare(impl, model):
+        return False
+    ti = [TRE.search(s.rstrip()) for s in impl.split(" ; ")]
+    tm = [TRE.search(s.rstrip()) for s in model.split(" ; ")]
+    return [m.group(1) if m else None for m in ti] == [m.group(1) if m else None for m in tm]
+
+
 def c05_pred(case, trace):
     """property predicate on an IMPLEMENTATION trace; None if fine, else the reason"""
     W, L, K, ops = parse_case(case)
     snaps = parse_trace(trace)
     nf = first_fault_index(ops)
+    nl = len(K)
     maybe_resume = False      # a Resume may be waiting in the waker queue
     prev_paused = False
+    prev_marks = [False] * nl
+    now = 0                   # virtual clock, ms
+    entered = [None] * nl     # time of the error that started the current back-off episode
+    rearm = [False] * nl      # another non-transient error was injected since: the deadline may have moved
+    n_other = [0] * nl        # non-transient errors injected so far (top level or in a yield schedule)
+    n_back = [0] * nl         # back-off episodes seen
     for k, sn in enumerate(snaps):
         op = ops[k] if k < len(ops) else "?"
         if sn.bad or sn.err:
             if k < nf:
                 return "op %d (%s): %s" % (k, op, sn.bad or sn.err)
             break
+        if op[0] == "+":
+            now += int(op[1:])
+        for e in env_ops_of(op):
+            if e[0] == "i" and e.endswith(":o"):
+                t = int(e[1:].split(":")[0])
+                if t < nl:
+                    n_other[t] += 1
+                    rearm[t] = True
         ds = [e for e in sn.events if e[0] == "D"]
         # (b) a client could not connect: the Unix listener's path is gone
         for e in sn.events:
@@ -71,6 +108,31 @@ def c05_pred(case, trace):
                 return "op %d (%s): dispatch %s while paused and no Resume was queued" % (k, op, ds)
         if sn.wqlen == 0:
             maybe_resume = False
+        # (e) back-off bookkeeping
+        pt = poll_timeout(sn)
+        if pt is not None and pt > 510:
+            return "op %d (%s): poll timeout %d ms exceeds 510 ms" % (k, op, pt)
+        for t in range(min(nl, len(sn.lsts))):
+            if sn.lsts[t] and not prev_marks[t]:
+                n_back[t] += 1
+                entered[t] = now
+                rearm[t] = n_other[t] > n_back[t]     # further injected errors may still move the deadline
+                if n_back[t] > n_other[t]:
+                    return ("op %d (%s): listener %d entered a back-off although no non-transient error was pending "
+                            "(a per-connection error delayed later connections)" % (k, op, t))
+            if not sn.lsts[t]:
+                entered[t] = None
+            if sn.lsts[t] and pt is None and not sn.stopped:
+                return "op %d (%s): listener %d is in back-off but the poll timeout is not armed: nothing will re-register it" % (k, op, t)
+            if (sn.lsts[t] and entered[t] is not None and not rearm[t] and op[0] in "TO" and not sn.stopped and k < nf
+                    and pt is not None and now + pt > entered[t] + 500):
+                return ("op %d (%s): after process_timeout the poll timeout (%d ms) ends after the deadline of listener %d (error at %d ms, "
+                        "now %d ms): the blocking poll would oversleep the back-off" % (k, op, pt, t, entered[t], now))
+            if (sn.lsts[t] and entered[t] is not None and not rearm[t] and op[0] in "TO" and not sn.stopped
+                    and not prev_paused and not sn.paused and now >= entered[t] + 510 and k < nf):
+                return ("op %d (%s): listener %d is still in back-off %d ms after the accept error, after process_timeout ran"
+                        % (k, op, t, now - entered[t]))
+        prev_marks = list(sn.lsts) + [False] * (nl - len(sn.lsts))
         prev_paused = sn.paused
     # (c) nothing stays stranded: after the settling epilogue every connected client was dispatched
     if nf == len(ops) and len(snaps) == len(ops) and settled_epilogue(ops):
@@ -90,8 +152,10 @@ def finding_key(case, impl, model):
         return "listener-unreachable"
     if "while paused" in r:
         return "dispatch-while-paused"
-    if "never dispatched" in r:
+    if "never dispatched" in r or "still in back-off" in r or "not armed" in r or "oversleep" in r:
         return "stranded"
+    if "per-connection error" in r:
+        return "transient-delays"
     return "other"
 
 
@@ -139,7 +203,7 @@ def scenario_cases(depth):
 
 
 def mk(name, cases, describe):
-    return Stream(name, "srv", cases, compare=compare,
+    return Stream(name, "srv", cases, compare=c05_compare,
                   monitor=lambda c, i, m: c05_pred(c, i) is None,
                   nontrivial=nontrivial, shrink=shrink_ops, finding_key=finding_key, describe=describe, timeout=400)
 
